@@ -24,4 +24,24 @@ int main(){
   for(int c=-32768;c<=32767;c++){ const char*d=SCPI_ErrorTranslate(c); if(strcmp(d,"Unknown error")){ printf("  %s((%d)%%Z, ",first?"  ":"; ",c); bytes(d); printf(")\n"); first=0; } }
   printf("].\nDefinition gen_err_fallback : list N := "); bytes(SCPI_ErrorTranslate(12345)); printf(".\n");
   printf("Definition gen_desc_max : Z := %d%%Z.\nDefinition gen_line_ending : list N := ",SCPI_STD_ERROR_DESC_MAX_STRING_LENGTH); bytes(SCPI_LINE_ENDING); printf(".\n");
+  /* register tables: per register (class, group); per group (event, enable, condition, ptfilt, ntfilt, parent_reg, parent_bit); NONE printed as -1 */
+  printf("Definition gen_reg_count : Z := %d%%Z.\nDefinition gen_reg_details : list (Z * Z) := [\n", (int)SCPI_REG_COUNT);
+  for(int i=0;i<SCPI_REG_COUNT;i++) printf("  %s(%d, %d)%%Z\n", i?"; ":"  ", (int)scpi_reg_details[i].type, (int)scpi_reg_details[i].group);
+  printf("].\nDefinition gen_group_details : list (Z * Z * Z * Z * Z * Z * N) := [\n");
+#define RN(x) ((x)==SCPI_REG_NONE?-1:(int)(x))
+  for(int i=0;i<SCPI_REG_GROUP_COUNT;i++){ scpi_reg_group_info_t g=scpi_reg_group_details[i];
+    printf("  %s((%d)%%Z, (%d)%%Z, (%d)%%Z, (%d)%%Z, (%d)%%Z, (%d)%%Z, %u%%N)\n", i?"; ":"  ", RN(g.event), RN(g.enable), RN(g.condition), RN(g.ptfilt), RN(g.ntfilt), RN(g.parent_reg), (unsigned)g.parent_bit); }
+  printf("].\nDefinition gen_reg_classes : list Z := [%d; %d; %d; %d; %d]%%Z.  (* STB SRE EVEN ENAB COND *)\n", (int)SCPI_REG_CLASS_STB,(int)SCPI_REG_CLASS_SRE,(int)SCPI_REG_CLASS_EVEN,(int)SCPI_REG_CLASS_ENAB,(int)SCPI_REG_CLASS_COND);
+  printf("Definition gen_stb_bits : list N := [%u; %u; %u; %u; %u]%%N.  (* SRQ QMA ESR OPS QES *)\n", (unsigned)STB_SRQ,(unsigned)STB_QMA,(unsigned)STB_ESR,(unsigned)STB_OPS,(unsigned)STB_QES);
+  printf("Definition gen_reg_val_bits : Z := %d%%Z.\n", (int)(8*sizeof(scpi_reg_val_t)));
+  /* formatting configuration */
+  { char pf[8]; const char*b2=getBasePrefix(2),*b8=getBasePrefix(8),*b16=getBasePrefix(16),*b10=getBasePrefix(10);
+    printf("Definition gen_base_prefix : list (Z * list N) := [(2%%Z, "); bytes(b2?b2:""); printf("); (8%%Z, "); bytes(b8?b8:""); printf("); (16%%Z, "); bytes(b16?b16:""); printf("); (10%%Z, "); bytes(b10?b10:""); printf(")].\n"); (void)pf; }
+#define STR2(x) #x
+#define STR(x) STR2(x)
+  printf("Definition gen_double_fmt : list N := "); bytes(STR(SCPIDEFINE_doubleToStr(v, s, l))); printf(".\n");
+  printf("Definition gen_float_fmt : list N := "); bytes(STR(SCPIDEFINE_floatToStr(v, s, l))); printf(".\n");
+  printf("Definition gen_desc_parts : Z := %d%%Z.\n", (int)SCPIDEFINE_DESCRIPTION_MAX_PARTS);
+  printf("Definition gen_config : list Z := [%d; %d; %d; %d]%%Z.  (* USE_DEVICE_DEPENDENT_ERROR_INFORMATION USE_MEMORY_ALLOCATION_FREE USE_CUSTOM_DTOSTRE HAVE_STDBOOL *)\n",
+         (int)USE_DEVICE_DEPENDENT_ERROR_INFORMATION,(int)USE_MEMORY_ALLOCATION_FREE,(int)USE_CUSTOM_DTOSTRE,(int)HAVE_STDBOOL);
   return 0; }
